@@ -2474,7 +2474,7 @@ class PhonopyConfParser(ConfParser):
         if "include_disp" in params:
             self._settings.set_include_displacements(params["include_disp"])
 
-        if "include_all" in params:
+        if "include_all" in params and params["include_all"]:
             self._settings.set_include_force_constants(True)
             self._settings.set_include_force_sets(True)
             self._settings.set_include_nac_params(True)
